@@ -25,7 +25,7 @@ BIN=$(ls -t "$VERIF_DIR"/loom-target/release/deps/penguin_mux-* 2>/dev/null | gr
 mkdir -p "$VERIF_DIR/replays" "$VERIF_DIR/evidence"
 run_one() { # scenario bound -> prints output, returns status
   local T=verif_loom_writer_vs_task
-  case "$1" in *,w2,*) T=verif_loom_two_writers;; ids,*) T=verif_loom_flow_ids;; abort,*) T=verif_loom_abort_vs_request;; esac
+  case "$1" in frames,*) T=verif_loom_stream_vs_frames;; *,w2,*) T=verif_loom_two_writers;; ids,*) T=verif_loom_flow_ids;; abort,*) T=verif_loom_abort_vs_request;; dropmap,*) T=verif_loom_task_drop_vs_locked_map;; esac
   VERIF_LOOM_SCENARIO="$1" VERIF_LOOM_PREEMPTION_BOUND="$2" LOOM_MAX_BRANCHES=100000 "$BIN" $T --exact verif_loom::$T --nocapture --test-threads=1 2>&1
 }
 if [ -n "$REPLAY" ]; then
@@ -53,14 +53,23 @@ if sys.argv[2] == "C07":
     sc += [f"ids,{a}p7,{x}" for a in ("o","b") for x in onep] + ["ids,op0,3","ids,bp0,0+3"]
     sc += [f"ids,{a}p7,{x}" for a in ("oo","ob","bb") for x in threep]
     sc += [f"ids,{a},{x}" for a in ("ooo","oob","obb") for x in three]
+    # k: a pending local request (made first, takes the first scripted id) is acknowledged by the
+    # peer on the task's thread while other threads draw the same id
+    sc += [f"ids,{a},{x}" for a in ("ko","kb","koo","kob","kop7","kbp9") for x in ("7+7+9","7+7","7+9","7+7+7+9","0+7+7")]
     random.Random(int(sys.argv[1])).shuffle(sc)
     print("\n".join(sc)); sys.exit(0)
 ops = ["a1","a2","c","a1+a1","a1+c","c+a1","a2+c","c+a2","a1+a2","a1+a1+c","a1+c+a1","c+a1+a1"]
 sc = [f"{c},{p},{o}" for c in (0,1,2) for p in (1,2,3) for o in ops]
 # two writers racing for credit on one stream (poll_obtain_write_permission takes &self)
 sc += [f"{c},w2,{o}" for c in (0,1,2,3) for o in ("none","a1","a2","c","a1+c","c+a1","a1+a1")]
+# a real stream (made by the task from the peer's Connect) used on one thread while another hands the
+# task the peer's frames for it: credit x writer ops (w = poll_write, s = poll_shutdown) x frames
+# (a<n> = Acknowledge, r = Reset, f = Finish, p = Push)
+fr = [f"frames,{c},{w},{f}" for c in (0,1,2) for w in ("w","ww","www","ws","wsw","sw")
+      for f in ("a1","a2","r","a1+r","r+a1","a1+a1","f","p+f","a1+f","p+a1+r")]
+random.Random(int(sys.argv[1]) + 1).shuffle(fr)
 random.Random(int(sys.argv[1])).shuffle(sc)
-print("\n".join(sc))
+print("\n".join(sc + fr + ["dropmap,o", "dropmap,b", "dropmap,m"]))
 PY
 N=0; EXEC=0; VIOL=0; SAMPLES=""; FAILED_SC=""
 while read -r SC; do
@@ -75,7 +84,7 @@ while read -r SC; do
     R="$VERIF_DIR/replays/$ID-loom-$(echo "$SC" | tr ',+' '__').json"
     python3 - "$R" "$SC" "$PB" "$MSG" "$ID" <<'PY'
 import json,sys
-json.dump({"property":sys.argv[5],"engine":"loomsim","class":sys.argv[5]+":"+("flow-id-race" if sys.argv[5]=="C07" else "request-hangs-at-task-drop" if sys.argv[5]=="C08" else "lost-wakeup" if "LOST WAKEUP" in sys.argv[4] else "credit-race"),"plan":{"scenario":sys.argv[2],"preemption_bound":int(sys.argv[3])},"expect":{"violation":sys.argv[4]},"note":"loom's DFS is deterministic: re-running the scenario reproduces the same failing interleaving"}, open(sys.argv[1],"w"), indent=1)
+json.dump({"property":sys.argv[5],"engine":"loomsim","class":sys.argv[5]+":"+("flow-id-race" if sys.argv[5]=="C07" else "request-hangs-at-task-drop" if sys.argv[5]=="C08" else "writer-not-released-at-task-drop" if "DROPMAP" in sys.argv[4] else "lost-wakeup" if "LOST WAKEUP" in sys.argv[4] else "credit-race"),"plan":{"scenario":sys.argv[2],"preemption_bound":int(sys.argv[3])},"expect":{"violation":sys.argv[4]},"note":"loom's DFS is deterministic: re-running the scenario reproduces the same failing interleaving"}, open(sys.argv[1],"w"), indent=1)
 PY
     [ $VIOL -le 3 ] && { echo "violation scenario=$SC : $MSG"; echo "VIOLATION property=$ID replay=$R"; }
     FAILED_SC="$FAILED_SC $SC"
@@ -114,9 +123,9 @@ import json,sys
 out,tier,seed,n,ex,viol,wall,samples,pb=sys.argv[1:10]
 json.dump({"property_id":"C12","tier":tier,"seed":int(seed),"level":"exploration",
  "coverage":{"evaluations":int(ex),"distinct_nontrivial":int(ex),
-  "rule":"scenario = (initial credit 0/1/2) x (1-3 polls of one writer) x (12 scripts of the other thread: acknowledge(1|2) and/or disallow_write in every order), plus (initial credit 0..3) x (two writer threads polling once each) x (7 scripts of a third thread); each of the "+n+" scenarios is explored by loom's DFS over every interleaving of the atomic operations and every value the C11 model lets a load return, up to preemption bound "+pb+"; evaluations = interleavings executed, each distinct by construction of the DFS and non-trivial (two threads touching the same atomics)",
+  "rule":"scenario = (initial credit 0/1/2) x (1-3 polls of one writer) x (12 scripts of the other thread: acknowledge(1|2) and/or disallow_write in every order), plus (initial credit 0..3) x (two writer threads polling once each) x (7 scripts of a third thread), plus 180 scenarios over a real stream wired to a real task: (initial credit 0/1/2) x (6 scripts of poll_write / poll_shutdown on one thread) x (10 scripts of the peer's Acknowledge / Reset / Finish / Push frames handed to the task's frame handler on another), plus 3 task-drop scenarios (the task dropped while another thread is inside insert_new_flow, or right after the multiplexor was let go, with a writer parked for credit); each of the "+n+" scenarios is explored by loom's DFS over every interleaving of the atomic operations and every value the C11 model lets a load return, up to preemption bound "+pb+"; evaluations = interleavings executed, each distinct by construction of the DFS and non-trivial (two threads touching the same atomics)",
   "samples":json.loads(samples),"scenarios":int(n),"preemption_bound":int(pb),"exhaustive":True,
-  "components_real":["MuxStream::poll_obtain_write_permission","EstablishedStreamData::acknowledge / disallow_write","penguin_mux::loom shim (loom Arc, atomics, AtomicWaker)"],
+  "components_real":["MuxStream::poll_obtain_write_permission","EstablishedStreamData::acknowledge / disallow_write","frames scenarios: Multiplexor::new_detailed, Task::process_frame (Connect, Acknowledge, Reset, Finish, Push arms), close_flow, MuxStream poll_write / poll_shutdown / poll_read, the flow map and its lock","penguin_mux::loom shim (loom Arc, atomics, AtomicWaker)"],
   "components_stub":["thread scheduler and memory model (loom)","the rest of the connection task (the other thread runs the scripted calls)"],
   "engine":"loomsim"},
  "assumptions":["loom's preemption bound limits context switches per execution (3 quick / 5 thorough); two threads only"],
